@@ -23,9 +23,27 @@ package ftp
 //
 // The dispatcher: a command that requires authentication is never executed on a session that has
 // not logged in (reqauth is the command's RequireAuth answer, see the table below).
+// Every command line is written to the command log exactly once, as read (property C04): nlogged counts the
+// sends receiveLine makes (a ghost counter kept by the verifier), and each of them carries the line.
+//@ ghost var nlogged int
+//@ ghost var nrecv int
 //@ func (*Conn).receiveLine
 //@   callpre Command.Execute: !(reqauth(recv) && conn.user == "")
+//@   onsend-add nlogged: 1
+//@   onsend [the-line] ch == conn.rcv && val == line
+//@   physical 0 <= nlogged && nlogged < 1<<48
+//@   ensures [logged-once] nlogged == old(nlogged) + 1
+//@   ensures [reads-nothing] nlines == old(nlines) && nrecv == old(nrecv)
 //@   modifies *
+//
+// The command loop hands every line it reads to receiveLine, once (nrecv counts those calls).
+//@ func (*Conn).Serve
+//@   callcount receiveLine: nrecv
+//@   physical 0 <= nlogged && nlogged < 1<<48 && 0 <= nrecv && nrecv < 1<<48 && 0 <= nlines && nlines < 1<<48
+//@   ensures [every-line-handled] nrecv - old(nrecv) == nlines - old(nlines)
+//@   ensures [every-line-logged] nlogged - old(nlogged) == nlines - old(nlines)
+//@   modifies *
+//@   loop 1: invariant nlines == old(nlines) + loopiter && nrecv == old(nrecv) + loopiter && nlogged == old(nlogged) + loopiter
 //
 // The gate table: every command that touches files or directories requires authentication.
 //@ func (commandAppe).RequireAuth
@@ -175,10 +193,13 @@ package ftp
 //
 // ---- goroutines of the FTP service (property C01): the command-log pump and the passive-socket
 // acceptor run outside the connection's recover; they cannot panic ----
+// (C04) the pump reports every logged command by one event
 //@ func (*ftpService).Handle$1
 //@   check safety
 //@   requires conn != nil && s != nil && ftpConn != nil
+//@   physical 0 <= nsends && nsends < 1<<48
 //@   modifies *
+//@   loop 1: invariant nsends == old(nsends) + loopiter
 //@ func (*ftpPassiveSocket).GoListenAndServe$1
 //@   check safety
 //@   requires listener != nil && socket != nil
@@ -207,7 +228,7 @@ package ftp
 //@   modifies *
 //
 //@ func (*ftpService).Handle
-//@   requires typeis(s.driver, *Fs) && unbox(s.driver, *Fs) != nil
+//@   requires conn != nil && typeis(s.driver, *Fs) && unbox(s.driver, *Fs) != nil
 //@   physical unbox(s.driver, *Fs).Htfs != nil
 //@   callpre (*Server).newConn: fresh(recv)
 //@   callpre (*Server).newConn: typeis(driver, *Fs) && fresh(unbox(driver, *Fs)) && fresh(unbox(driver, *Fs).Htfs)
